@@ -43,6 +43,11 @@ def gen_cases(tier, seed):
             cid = "irt:%s-scd:%s-dest:%s-aud:%s-rec:%s-u%d-c%d-p%d-%s" % (irt, scd, dest, aud, rec, unsol, conv, pat, "s" if signed else "p")
             cases.append({"id": cid, "sig": [irt, scd, dest, aud, rec, unsol, conv, pat, signed], "irt": irt, "scd": scd, "dest": dest, "aud": aud,
                           "rec": rec, "unsol": unsol, "conv": conv, "pat": pat, "signed": signed, "arrive": "post", "eps": "both"})
+    # what the application stored for the outstanding request (any value, also a falsy one) and assertions that arrive encrypted
+    for came, enc, irt, scd, unsol in itertools.product(("", "/came/from", 0), (0, 1), IRT, SCD, (0, 1)):
+        cid = "stored:%r-enc%d-irt:%s-scd:%s-u%d" % (came, enc, irt, scd, unsol)
+        cases.append({"id": cid, "sig": ["stored", repr(came), enc, irt, scd, unsol], "irt": irt, "scd": scd, "dest": "own", "aud": "one-naming", "rec": "own",
+                      "unsol": unsol, "conv": 0, "pat": 0, "signed": 0, "arrive": "post", "eps": "both", "came": came, "enc": enc})
     # the binding the response arrives over and the endpoints the SP has for it
     for arrive, eps in (("redirect", "both"), ("redirect", "post-only"), ("post", "post-only")):
         for irt, dest, aud, unsol, pat in itertools.product(("match", "unknown"), DEST, ("one-naming", "one-foreign"), (0, 1), (0, 1)):
@@ -128,9 +133,11 @@ def run_case(case, ctx):
     if axml:
         d = d.append_child(cond, axml)
     doc = d.text()
+    if case.get("enc"):
+        doc = xk.encrypt_assertions(doc, fed.key(2)[1])
     if case["signed"]:
         doc = xk.sign_element(doc, xk.SAMLP, "Response", d.root.attrs["ID"], fed.key(0)[0], "rsa-sha256", fed.cert_body(0))
-    outstanding = {"id-req-1": "/came/from"}
+    outstanding = {"id-req-1": case.get("came", "/came/from")}
     kw = {}
     if case["conv"]:
         kw["conv_info"] = {"entity_id": fed.SP_EID, "remote_addr": "0.0.0.0"}
@@ -153,7 +160,7 @@ def run_case(case, ctx):
     conforming = case["irt"] == "match" and case["scd"] == "match" and (case["dest"] == "absent" or (case["dest"] == "own" and own_for_binding)) \
         and r_aud and case["rec"] in ("own", "entityid") and (bool(own_for_binding) or arrive == "post")
     viol = []
-    desc = "arrives-over=%s sp-endpoints=%s " % (arrive, eps) + "InResponseTo=%s bearer-InResponseTo=%s Destination=%s audience=%s Recipient=%s allow_unsolicited=%s conv_info=%s pattern=%s: %s" % (
+    desc = "arrives-over=%s sp-endpoints=%s stored-for-request=%r encrypted=%s " % (arrive, eps, case.get("came", "/came/from"), bool(case.get("enc"))) + "InResponseTo=%s bearer-InResponseTo=%s Destination=%s audience=%s Recipient=%s allow_unsolicited=%s conv_info=%s pattern=%s: %s" % (
         case["irt"], case["scd"], case["dest"], case["aud"], case["rec"], bool(case["unsol"]), bool(case["conv"]), bool(case["pat"]), outcome)
     if accepted and not allowed:
         if not r_aud:
@@ -173,7 +180,7 @@ def run_case(case, ctx):
         viol.append({"key": key, "what": desc, "detail": {"document": doc[:5000]}})
     if not accepted and conforming:
         viol.append({"key": "C05/conforming-response-rejected", "what": desc + " (%r)" % (exc,), "detail": {"document": doc[:5000]}})
-    if accepted and case["irt"] == "match" and getattr(resp, "came_from", None) != "/came/from":
+    if accepted and case["irt"] == "match" and getattr(resp, "came_from", None) != case.get("came", "/came/from"):
         viol.append({"key": "C05/came_from-not-that-of-the-outstanding-request", "what": desc + " came_from=%r" % getattr(resp, "came_from", None)})
     return {"outcome": outcome, "nontrivial": True, "violations": viol,
             "counters": {"accepted": int(accepted), "conforming": int(bool(conforming)), "allowed_by_reference": int(allowed)},
